@@ -602,7 +602,9 @@ func (x *Exec) havocLvalue(env *SpecEnv, st *State, e *Expr) {
 		if loc.whole {
 			nv = x.ctx.Fresh("hv_"+shortKey(loc.key), loc.sort)
 		} else {
-			nv = Store(arr, loc.ref, x.ctx.Fresh("hv_"+shortKey(loc.key), loc.sort.Val))
+			// nothing lives at the null reference (a nil slice has no elements, a nil pointer cannot be written
+			// through): an assigns item that denotes it changes nothing
+			nv = Store(arr, loc.ref, Ite(Eq(loc.ref, x.null()), Select(arr, loc.ref), x.ctx.Fresh("hv_"+shortKey(loc.key), loc.sort.Val)))
 		}
 		st.heap[loc.key] = nv
 		if loc.whole {
